@@ -110,3 +110,170 @@ Print Assumptions position_in_line_spec.
 Theorem usub_is_mod_2_64 : forall a b, a < w64 -> b < w64 -> usub a b = (a + w64 - b) mod w64.
 Proof. exact usub_mod. Qed.
 Print Assumptions usub_is_mod_2_64.
+
+(* ---- the core model (model/Core.v): where the errors of the project scan point, and what their
+        include trace is.  Proofs in proofs/TraceProofs.v.  For EVERY len_sane scanner oracle pair,
+        every file system whose regular files are made of bytes, every ban set, every fuel.
+   Vocabulary (proofs/TraceProofs.v, proofs/IncludeProofs.v):
+     fs_all_bytes files        every regular file of the file system consists of bytes (< 256)
+     include_reachable root f  f = root, or f = Join(Dir(m), name) for a reachable m and a name the
+                               regenerated validator accepts
+     project_file files root f content
+                               include_reachable root f /\ fs_stat files f = Some (FFile content):
+                               a file the scan can open, with its content
+     spells_at content off w   the bytes of content from offset off on begin with w
+     kw_include                the keyword "INCLUDE"
+     entry_real files root (f, off)
+                               f is a project file and its bytes at off spell INCLUDE
+     include_chain st          for a scanner stack [(x_k, off_k); ...; (x_0, off_0)] (top first; x_0 reads
+                               the root): [(file of x_k, off_k); ...; (root, off_0)] -- defined by recursion,
+                               independently of the model's stack_trace
+     scan_reach .. s0 s        s is reached from s0 by iterations of scanProject's loops
+     read_at .. s0 d           a state s reachable from s0 in which Next() delivers the Keyword lexeme
+                               d_kw d points at, and d_trace d = rev (include_chain (cs_stack s))
+     single_include_per_file files   (decidable) in no regular file do the bytes INCLUDE occur twice ---- *)
+From Coq Require Import String.
+From JV.lib Require Import Paths.
+From JV.gen Require Import DirectiveTables ScannerTable IncludeName.
+From JV.model Require Import ScannerSem Core.
+From JV.proofs Require Import TM_Events IncludeProofs BanProofs TraceProofs.
+
+(* (1) every error of the scan names a file of the project that was really opened -- the root or a
+   regular file reached through INCLUDE -- and its byte index lies inside that file (0 <= idx <= len,
+   the domain of jerr.NewLocation: location_total above) *)
+Theorem scan_error_in_bounds : forall jsc_len enum_len files banned root fuel e,
+  len_sane jsc_len -> len_sane enum_len -> fs_all_bytes files = true ->
+  scan_forest_with fuel jsc_len enum_len files banned root = CErr e ->
+  exists content, project_file files root (ce_file e) content /\ ce_idx e <= N.of_nat (List.length content).
+Proof. intros jsc enum files banned root fuel e Hj He Hb. exact (scan_error_in_bounds_lemma jsc enum Hj He files Hb banned root fuel e). Qed.
+Print Assumptions scan_error_in_bounds.
+
+(* the model's trace of a scanner stack is its include chain, innermost includer first *)
+Theorem stack_trace_is_include_chain : forall st, stack_trace st = include_chain st.
+Proof. exact stack_trace_is_chain. Qed.
+Print Assumptions stack_trace_is_include_chain.
+
+(* (2) every error is raised in a state s reached by the scan;
+   - an error of the scan loop itself (scan_err) lies in the file s reads and carries EXACTLY the
+     include chain of the scanner stack of s;
+   - an error about the pending directive d lies at d's keyword and carries d's own tracer
+     (innermost first); when that is empty -- d was read outside any include -- it gets the chain of the
+     stack of s, whatever file is read then (ex_root_directive_foreign_trace in TraceProofs.v);
+   and every entry of the trace is real: a project file, INCLUDE spelled at that offset *)
+Theorem scan_error_trace : forall jsc_len enum_len files banned root fuel content e,
+  len_sane jsc_len -> len_sane enum_len -> fs_all_bytes files = true ->
+  fs_stat files root = Some (FFile content) ->
+  scan_project jsc_len enum_len files banned fuel (init_state root content) = CErr e ->
+  exists s, scan_reach jsc_len enum_len files banned (init_state root content) s /\
+    Forall (entry_real files root) (include_chain (cs_stack s)) /\
+    ((ce_file e = sc_file (cs_sc s) /\ ce_trace e = include_chain (cs_stack s)) \/
+     (exists d, cs_cur s = Some d /\ ce_file e = c_file (d_kw d) /\ ce_idx e = c_beg (d_kw d) /\
+                ce_trace e = match d_trace d with [] => include_chain (cs_stack s) | _ => rev (d_trace d) end)) /\
+    Forall (entry_real files root) (ce_trace e).
+Proof.
+  intros jsc enum files banned root fuel content e Hj He Hb.
+  exact (scan_error_trace_lemma jsc enum Hj He files Hb banned root fuel content e).
+Qed.
+Print Assumptions scan_error_trace.
+
+(* ... for the whole scan: every "file:offset" entry of every trace names a project file and an
+   INCLUDE that is really there *)
+Theorem trace_entries_real : forall jsc_len enum_len files banned root fuel e,
+  len_sane jsc_len -> len_sane enum_len -> fs_all_bytes files = true ->
+  scan_forest_with fuel jsc_len enum_len files banned root = CErr e ->
+  Forall (entry_real files root) (ce_trace e).
+Proof. exact trace_entries_real_lemma. Qed.
+Print Assumptions trace_entries_real.
+
+(* every directive of the forest lies in a project file, its keyword inside the file, and every
+   entry of its tracer is real (later stages locate their diagnostics with kw_err d: file and offset
+   of the keyword, trace rev (d_trace d)) *)
+Theorem directive_located : forall jsc_len enum_len files banned root fuel f,
+  len_sane jsc_len -> len_sane enum_len -> fs_all_bytes files = true ->
+  scan_forest_with fuel jsc_len enum_len files banned root = COk f ->
+  forall d, In d (forest_dirs f) ->
+    (exists content, project_file files root (c_file (d_kw d)) content /\ c_beg (d_kw d) <= N.of_nat (List.length content)) /\
+    Forall (entry_real files root) (d_trace d).
+Proof.
+  intros jsc enum files banned root fuel f Hj He Hb.
+  exact (directive_located_lemma jsc enum Hj He files Hb banned root fuel f).
+Qed.
+Print Assumptions directive_located.
+
+(* (3) the tracer of a directive is cached per including file NAME (cs_tracers).  What the model
+   really does: when no file holds two INCLUDEs, every directive of the forest carries the include
+   chain of the scanner stack at the moment its keyword was read ... *)
+Theorem directive_trace_is_chain : forall jsc_len enum_len files banned root fuel f,
+  len_sane jsc_len -> len_sane enum_len -> fs_all_bytes files = true ->
+  single_include_per_file files = true ->
+  scan_forest_with fuel jsc_len enum_len files banned root = COk f ->
+  exists content, fs_stat files root = Some (FFile content) /\
+    forall d, In d (forest_dirs f) -> read_at jsc_len enum_len files banned (init_state root content) d.
+Proof.
+  intros jsc enum files banned root fuel f Hj He Hb Hs.
+  exact (directive_trace_is_chain_lemma jsc enum Hj He files Hb banned root Hs fuel f).
+Qed.
+Print Assumptions directive_trace_is_chain.
+
+(* ... and the trace of every error is the include chain of the stack of a reachable state s that
+   reads the file the error is in (for an error about a directive: the state in which the directive
+   was read); except that an error about a directive read in the root file (the stack of s is empty)
+   carries the chain of the state in which it is raised *)
+Theorem trace_is_include_chain : forall jsc_len enum_len files banned root fuel content e,
+  len_sane jsc_len -> len_sane enum_len -> fs_all_bytes files = true ->
+  single_include_per_file files = true ->
+  fs_stat files root = Some (FFile content) ->
+  scan_project jsc_len enum_len files banned fuel (init_state root content) = CErr e ->
+  exists s, scan_reach jsc_len enum_len files banned (init_state root content) s /\
+    ce_file e = sc_file (cs_sc s) /\
+    (ce_trace e = include_chain (cs_stack s) \/
+     (cs_stack s = [] /\ exists s', scan_reach jsc_len enum_len files banned (init_state root content) s' /\
+                                    ce_trace e = include_chain (cs_stack s'))) /\
+    Forall (entry_real files root) (ce_trace e).
+Proof.
+  intros jsc enum files banned root fuel content e Hj He Hb Hs.
+  exact (trace_is_include_chain_lemma jsc enum Hj He files Hb banned root Hs fuel content e).
+Qed.
+Print Assumptions trace_is_include_chain.
+
+(* two INCLUDEs in one file (finding C02/stale-include-tracer): r.jst = JSIGHT 0.3 / INCLUDE a.jst /
+   INCLUDE b.jst.  The INCLUDEs are at offsets 11 and 25; the directive read from b.jst, and an error
+   about a directive of b.jst, carry offset 11 -- the line of INCLUDE a.jst; an error of the scan
+   loop in b.jst carries the chain of the stack, offset 25 *)
+Theorem directive_trace_is_chain_two_includes_refuted :
+  single_include_per_file (ex_two_includes []) = false /\
+  include_offsets (ex_line "JSIGHT 0.3" ++ ex_line "INCLUDE a.jst" ++ ex_line "INCLUDE b.jst") = [11; 25] /\
+  ex_dir_traces (scan_forest_with 1000 ex_len ex_len (ex_two_includes (ex_line "TAG @y")) [] (bs "r.jst")) =
+  Some [(bs "r.jst", 0, []); (bs "a.jst", 0, [(bs "r.jst", 11)]); (bs "b.jst", 0, [(bs "r.jst", 11)])] /\
+  ex_err (scan_forest_with 1000 ex_len ex_len (ex_two_includes (ex_line "Body")) [] (bs "r.jst")) =
+  Some (bs "b.jst", 0, CEIncorrectContext, [(bs "r.jst", 11)]) /\
+  ex_err (scan_forest_with 1000 ex_len ex_len (ex_two_includes (ex_line "JSIGHT 0.3")) [] (bs "r.jst")) =
+  Some (bs "b.jst", 0, CEJsightInInclude, [(bs "r.jst", 25)]).
+Proof. exact ex_stale_tracer_facts. Qed.
+Print Assumptions directive_trace_is_chain_two_includes_refuted.
+
+(* ... and a refutation proper: for that project (b.jst = "Body") the conclusion of
+   trace_is_include_chain is false -- the error about b.jst carries [(r.jst, 11)], and no state
+   reached by the scan reads b.jst with that include chain (the loop is deterministic: the reachable
+   states are those of the computed run) *)
+Theorem trace_is_include_chain_two_includes_refuted :
+  exists files root fuel content e,
+    fs_all_bytes files = true /\ single_include_per_file files = false /\
+    fs_stat files root = Some (FFile content) /\
+    scan_project ex_len ex_len files [] fuel (init_state root content) = CErr e /\
+    ~ exists s, scan_reach ex_len ex_len files [] (init_state root content) s /\
+        ce_file e = sc_file (cs_sc s) /\
+        (ce_trace e = include_chain (cs_stack s) \/
+         (cs_stack s = [] /\ exists s', scan_reach ex_len ex_len files [] (init_state root content) s' /\
+                                        ce_trace e = include_chain (cs_stack s'))).
+Proof. exact trace_is_include_chain_two_includes_refuted_lemma. Qed.
+Print Assumptions trace_is_include_chain_two_includes_refuted.
+
+(* (4) r.jst -> a.jst -> sub/c.jst with the fault in sub/c.jst: innermost includer first *)
+Theorem trace_nested_example :
+  ex_err (scan_forest_with 1000 ex_len ex_len (ex_nested (ex_line "JSIGHT 0.3")) [] (bs "r.jst")) =
+  Some (bs "sub/c.jst", 0, CEJsightInInclude, [(bs "a.jst", 7); (bs "r.jst", 11)]) /\
+  ex_err (scan_forest_with 1000 ex_len ex_len (ex_nested (ex_line "TAG @y" ++ ex_line "Body")) [] (bs "r.jst")) =
+  Some (bs "sub/c.jst", 7, CEIncorrectContext, [(bs "a.jst", 7); (bs "r.jst", 11)]).
+Proof. split; [exact ex_trace_nested_loop|exact ex_trace_nested_directive]. Qed.
+Print Assumptions trace_nested_example.
